@@ -5,7 +5,7 @@ BASE = "cd /repo && go test -mod=mod -json -vet=off -count=1 -timeout 25m ./..."
 SWEEP = "explicit-state enumeration of every civil day of the year set on the real code (worker processes), lock-step reference model"
 checks = {
  "C01": (SWEEP + " R1; round trips, edge order, two-path digests, lunar stepping",
-         "Every civil day 0001-01-01..9998-12-31 (thorough; quick = seam windows + stride years) x slot-edge times is a state; conversions, both construction paths and Lunar.Next(n) are transitions executed on the real code and compared with the integer day model and with each other. Strict order along every NextDay(1) edge gives the bijection. Exhaustive within the stated alphabets.",
+         "Every civil day 0001-01-01..9998-12-31 (thorough; quick = seam windows + stride years) x slot-edge times (thorough: all 26 in the quick set's years and on every boundary state of every year, six elsewhere) is a state; conversions, both construction paths and Lunar.Next(n) are transitions executed on the real code and compared with the integer day model and with each other. Strict order along every NextDay(1) edge gives the bijection. Exhaustive within the stated alphabets.",
          "R1 day numbering; full getter digests are taken on a stated subset, field digests (whole struct state incl. 31 term instants) everywhere", "4 C01"),
  "C02": ("exhaustive enumeration of all lunations / lunar years of the stated ranges against an independent ephemeris (R3) and ICU, with the leap rule re-evaluated on the library's own data",
          "Every month of every year table 1645..3000 and every lunar year 1929..3000: new-moon day against R3 (era margins), the no-major-term rule re-evaluated on the library's own term days (no margin) and on R3's events, ICU month starts 1900..2100. Events inside the oracle's margin of midnight are counted undecided, never failed.",
@@ -41,7 +41,7 @@ checks = {
          "Pristine table: every view compared with sorted filters of the parsed record set; every day x 25 step counts for the workday walk; pay rate on every day. Fix machine: every history over a 21-call alphabet to depth 2 (quick) / 3 (thorough), each executed in its own process, with all views, the workday walk and the pay rate observed before the first fix-up and re-compared with the record-set model after each.",
          "R5 insert/overwrite/delete semantics of Fix; statutory-day list as documented in the code", "4 C14"),
  "C11": (SWEEP + "; fixed list of ~95 route pairs per moment, functional-dependence tables for eight-character attributes",
-         "Every day x 14 moments: both routes of every pair are executed and compared; eight-character attributes are collapsed by the pillars selected by the current sect and a second value per key is a violation with two witnesses.",
+         "Every day x 14 moments (outside the quick set's years the thorough tier uses the quick rotation: 14 on term days, month ends and every third day, else 4): both routes of every pair are executed and compared; eight-character attributes are collapsed by the pillars selected by the current sect and a second value per key is a violation with two witnesses.",
          "dependence keys are projections of the four pillars (listed in evidence assumptions)", "4 C11"),
  "C13": (SWEEP + " R4 (rule sentences on the library's own term days and integer day stems)",
          "Every civil day: presence, absence, name and index of nine-nines, dog days, pentads/phenology, New Year's Eve, Cold Food and She days compared with the rule sentences; index continuity along edges.",
